@@ -680,6 +680,11 @@ func (g *G) ValOf(typ, where string, depth int, label string) Val {
 		if where != "array" && where != "fields" && rapid.IntRange(0, 6).Draw(t, label+".onil") == 0 {
 			return Val{T: typ, Nil: true}
 		}
+		if rapid.IntRange(0, 7).Draw(t, label+".otnil") == 0 {
+			// a typed nil: a nil pointer with a nil-safe method, a nil map with a value receiver -- not the nil
+			// interface, so every entry point calls the method and gets an object without fields
+			return Val{T: typ, EK: rapid.SampledFrom([]string{"nilptr", "nilmap"}).Draw(t, label+".otk")}
+		}
 		return Val{T: typ, Ops: g.Ops("event", depth-1, label+".sub")}
 	case "arr", "arrm":
 		v := Val{T: typ}
@@ -784,7 +789,7 @@ func (g *G) Settings() Settings {
 	if !g.cfg.C08 {
 		s.FloatPrec = rapid.SampledFrom([]int{-1, -1, -1, -1, -1, 0, 1, 2, 3, 17, -2}).Draw(t, "set.fp")
 	}
-	s.ErrMarshal = rapid.SampledFrom([]string{"", "", "", "string", "obj", "othererr", "nil", "struct"}).Draw(t, "set.em")
+	s.ErrMarshal = rapid.SampledFrom([]string{"", "", "", "string", "obj", "othererr", "nil", "struct", "nilobj"}).Draw(t, "set.em")
 	s.StackMarshal = rapid.SampledFrom([]string{"", "", "nil", "string", "error", "obj", "frames", "nilerr"}).Draw(t, "set.sm")
 	s.IfaceMarshal = rapid.SampledFrom([]string{"", "", "", "stdjson", "wrap", "fail"}).Draw(t, "set.im")
 	if s.IfaceMarshal == "fail" {
@@ -801,7 +806,7 @@ func (g *G) Settings() Settings {
 	}
 	switch g.focus {
 	case "errors":
-		s.ErrMarshal = rapid.SampledFrom([]string{"", "string", "obj", "othererr", "nil", "struct"}).Draw(t, "set.em2")
+		s.ErrMarshal = rapid.SampledFrom([]string{"", "string", "obj", "othererr", "nil", "struct", "nilobj"}).Draw(t, "set.em2")
 		s.StackMarshal = rapid.SampledFrom([]string{"nil", "string", "error", "obj", "frames", "nilerr", "pkgerrors", "pkgerrors"}).Draw(t, "set.sm2")
 		if g.cfg.C08 && s.StackMarshal == "pkgerrors" {
 			s.StackMarshal = "frames"
